@@ -98,7 +98,10 @@ class Constraint:
 
     def get_variables(self) -> set[Variable]:
         """Get all variables in this constraint."""
-        return self.expr.get_variables()
+        # get_all_variables switches to an explicit stack for deep expression trees
+        from optyx.core.expressions import get_all_variables
+
+        return get_all_variables(self.expr)
 
     def __repr__(self) -> str:
         name_str = f"'{self.name}': " if self.name else ""
